@@ -75,6 +75,20 @@ fn ancestor_hostile(r: &mut Rng) -> String {
     format!("inherit .{n}\n(class_definition) @c {{\n  let @c.{n} = \"class\"\n}}\n(function_definition) @f {{\n  let @f.{n} = \"function\"\n}}\n(block) @b {{\n  let @b.{n} = (start-row @b)\n}}\n(pass_statement) @p {{\n  node n\n  attr (n) seen = @p.{n}\n}}\n(identifier) @i {{\n  node m\n  attr (m) seen = @i.{n}\n}}\n", n = name)
 }
 
+/// list captures that receive MANY nodes (more than any inline buffer holds) hanging in several hidden repeat nodes: the value
+/// lists them in document order, on every run, for every re-parse of the same text
+fn wide_capture_hostile(r: &mut Rng) -> String {
+    let (pat, cap) = *r.pick(&[("(module (_)* @tops) @m", "tops"), ("(module (expression_statement (identifier) @tops)*) @m", "tops"), ("(module (expression_statement)+ @tops) @m", "tops"),
+        ("(block (_)+ @tops) @m", "tops"), ("(argument_list (_)* @tops) @m", "tops"), ("(parameters (identifier)* @tops) @m", "tops")]);
+    format!("{} {{\n  let _u = @m\n  node n\n  attr (n) all = @{c}, texts = [ (source-text t) for t in @{c} ], count = (length @{c})\n  for t in @{c} {{\n    node x\n    attr (x) t = (source-text t), row = (start-row t)\n  }}\n}}\n", pat, c = cap)
+}
+
+const WIDE_SRCS: &[&str] = &[
+    "a0\na1\na2\na3\na4\na5\na6\na7\na8\na9\na10\na11\na12\na13\na14\na15\na16\na17\na18\na19\na20\na21\na22\na23\na24\na25\na26\na27\na28\na29\na30\na31\na32\na33\na34\na35\na36\na37\na38\na39\n",
+    "def f(p0, p1, p2, p3, p4, p5, p6, p7, p8, p9, p10, p11):\n    b0\n    b1\n    b2\n    b3\n    b4\n    b5\n    b6\n    b7\n    b8\n    b9\n    b10\n    b11\n    return g(p0, p1, p2, p3, p4, p5, p6, p7, p8, p9, p10, p11)\n",
+    "x0\npass\nx1\ny = 2\nx2\nx3\nx4\npass\nx5\nx6\nx7\nx8\nx9\nx10\nx11\nx12\n",
+];
+
 const NESTED_SRC: &str = "class K:\n    def m(self):\n        pass\n    def n(self):\n        if a:\n            pass\n";
 
 fn history_hostile(r: &mut Rng) -> String {
@@ -141,10 +155,10 @@ pub fn child(seed: u64, n: usize, only: Option<usize>) {
         let mut r = root.fork(pi as u64);
         let opts = opts_for(pi, &mut r);
         let program = gen_program(&mut r, &pool, &opts);
-        let text = if pi % 11 == 10 { history_hostile(&mut r) } else if pi % 11 == 9 { scan_history_hostile(&mut r) } else if pi % 11 == 8 { ancestor_hostile(&mut r) } else if pi % 5 == 4 { faulty_variant(&mut r, &program.text) } else if pi % 7 == 6 { hash_order_hostile(&mut r) } else { program.text.clone() };
+        let text = if pi % 11 == 10 { history_hostile(&mut r) } else if pi % 11 == 9 { scan_history_hostile(&mut r) } else if pi % 11 == 8 { ancestor_hostile(&mut r) } else if pi % 11 == 7 { wide_capture_hostile(&mut r) } else if pi % 5 == 4 { faulty_variant(&mut r, &program.text) } else if pi % 7 == 6 { hash_order_hostile(&mut r) } else { program.text.clone() };
         let source = gen_source(&mut r, true, false);
         let globals = supply_globals(&mut r, &program);
-        let src_text = if pi % 11 == 8 { NESTED_SRC.to_string() } else { source.src.clone() };
+        let src_text = if pi % 11 == 8 { NESTED_SRC.to_string() } else if pi % 11 == 7 { WIDE_SRCS[pi % 3].to_string() } else { source.src.clone() };
         println!("{}", transcript(&text, &src_text, &globals));
     }
 }
@@ -155,6 +169,8 @@ pub fn run(rep: &mut Report, tier: &str, seed: u64) {
                 non-trivial = the file loads and has a match; distinct by (text, source)".to_string();
     rep.correspondence = "exec: each case once against the model (a pure function of its inputs)".to_string();
     let (n_programs, threads, procs) = if tier == "thorough" { (600, 16, 6) } else { (60, 4, 3) };
+    // one function table for every execution of this process, the threads included (a caller builds `Functions::stdlib()` once)
+    crate::execx::SHARE_FUNCTIONS.store(true, std::sync::atomic::Ordering::SeqCst);
     // processes
     {
         let exe = std::env::current_exe().expect("current exe");
@@ -205,7 +221,7 @@ pub fn run(rep: &mut Report, tier: &str, seed: u64) {
         let mut r = root.fork(pi as u64);
         let opts = opts_for(pi, &mut r);
         let program = gen_program(&mut r, &pool, &opts);
-        let text = if pi % 11 == 10 { history_hostile(&mut r) } else if pi % 11 == 9 { scan_history_hostile(&mut r) } else if pi % 11 == 8 { ancestor_hostile(&mut r) } else if pi % 5 == 4 { faulty_variant(&mut r, &program.text) } else if pi % 7 == 6 { hash_order_hostile(&mut r) } else { program.text.clone() };
+        let text = if pi % 11 == 10 { history_hostile(&mut r) } else if pi % 11 == 9 { scan_history_hostile(&mut r) } else if pi % 11 == 8 { ancestor_hostile(&mut r) } else if pi % 11 == 7 { wide_capture_hostile(&mut r) } else if pi % 5 == 4 { faulty_variant(&mut r, &program.text) } else if pi % 7 == 6 { hash_order_hostile(&mut r) } else { program.text.clone() };
         let _ = gen_source(&mut r, true, false); // keep the PRNG stream aligned with `child`
         let globals = supply_globals(&mut r, &program);
         // (1) repeated loading
@@ -234,6 +250,8 @@ pub fn run(rep: &mut Report, tier: &str, seed: u64) {
             [good, bad, bad].iter().map(|p| { let src = format!("x = \"{}\"\n", p); let tree = crate::tree::parse_python(&src); Source { src, tree } }).collect()
         } else if pi % 11 == 8 {
             [NESTED_SRC, NESTED_SRC, "def f():\n    pass\n"].iter().map(|src| { let src = src.to_string(); let tree = crate::tree::parse_python(&src); Source { src, tree } }).collect()
+        } else if pi % 11 == 7 {
+            [WIDE_SRCS[pi % 3], WIDE_SRCS[(pi + 1) % 3], WIDE_SRCS[pi % 3]].iter().map(|src| { let src = src.to_string(); let tree = crate::tree::parse_python(&src); Source { src, tree } }).collect()
         } else if pi % 11 == 9 {
             ["ab = ba\n", "a = b\n", "ba = a0\n"].iter().map(|src| { let src = src.to_string(); let tree = crate::tree::parse_python(&src); Source { src, tree } }).collect()
         } else {
